@@ -496,6 +496,163 @@ fn params_for(t: &str, env: &Env, variant: usize) -> Option<J> {
     })
 }
 
+/// Keys `config.set` knows: the string match arms of handle_config_set in the working tree.
+pub fn scrape_config_keys() -> Vec<String> {
+    let mut keys = BTreeSet::new();
+    if let Ok(text) = std::fs::read_to_string("/repo/crates/trust-runtime/src/control.rs") {
+        if let Some(at) = text.find("fn handle_config_set") {
+            let body = &text[at..];
+            let end = body[1..].find("\nfn ").map(|e| e + 1).unwrap_or(body.len());
+            for line in body[..end].lines() {
+                let l = line.trim();
+                if l.starts_with('"') && l.contains("=>") {
+                    if let Some(e) = l[1..].find('"') {
+                        keys.insert(l[1..1 + e].to_string());
+                    }
+                }
+            }
+        }
+    }
+    keys.into_iter().collect()
+}
+
+/// Values at and beyond the limits of what a handler may expect for a parameter.
+fn extreme_values() -> Vec<J> {
+    let mut v = vec![
+        json!(9223372036854775807i64), json!(18446744073709551615u64), json!(-9223372036854775808i64), json!(9223372036855i64), json!(9223372036854776i64),
+        json!(4294967296i64), json!(2147483648i64), json!(65536), json!(-1), json!(0), json!(1.0e308), json!(0.5), json!(""), json!("\u{0}"),
+        json!("%IX99999999999999999999.0"), json!("%QX0.99"), json!("T#99999999999999999d"), json!("DINT#99999999999999999999"), json!("global:"), json!(":"),
+        json!("a".repeat(70_000)), J::Null, json!([]), json!({}), json!(true), json!([9223372036854775807i64, -1, 4294967296i64]),
+    ];
+    let mut nested = json!(1);
+    for _ in 0..100 {
+        nested = json!([nested]);
+    }
+    v.push(nested);
+    v
+}
+
+/// Part X: requests whose parameters sit at the extremes.  Sent with the admin credential (the question is not the
+/// role but whether the endpoint survives): every such request must be answered with one parseable reply line, the
+/// endpoint must keep serving `config.get` / `status` afterwards, and a caller without credentials must still be refused.
+fn extremes(sh: &mut Shard, cfg: &Config, work: &Path, types: &[String]) {
+    let keys = scrape_config_keys();
+    sh.count("X_config_keys_scraped", if sh.args.shard == 0 { keys.len() as u64 } else { 0 });
+    let values = extreme_values();
+    let (shard, nshards) = (sh.args.shard as usize, sh.args.nshards as usize);
+    let mut env: Option<Env> = None;
+    let mut n = 0usize;
+    let auth = if cfg.token { Some(ADMIN_TOKEN.to_string()) } else { None };
+    for t in types {
+        let mut objects: Vec<(String, J)> = Vec::new();
+        let probe_env = match env.as_mut() {
+            Some(e) => e,
+            None => match catch(|| build_env(cfg, work, false)) {
+                Ok(Ok(e)) => env.insert(e),
+                _ => {
+                    sh.inconclusive("X: build_env failed");
+                    return;
+                }
+            },
+        };
+        let mut base = params_for(t, probe_env, 0).unwrap_or_else(|| json!({}));
+        if base.as_object().map(|m| m.is_empty()).unwrap_or(true) {
+            base = params_for(t, probe_env, 2).unwrap();
+        }
+        let mut ks: Vec<String> = base.as_object().map(|m| m.keys().cloned().collect()).unwrap_or_default();
+        if t == "config.set" {
+            // control.auth_token replaces the credential itself (the follow-ups below would then use a stale one): role matrix only
+            ks = keys.iter().filter(|k| k.as_str() != "control.auth_token").cloned().collect();
+            base = json!({});
+        }
+        for k in &ks {
+            for (vi, val) in values.iter().enumerate() {
+                let mut o = base.clone();
+                o[k.as_str()] = val.clone();
+                objects.push((format!("{k}#{vi}"), o));
+            }
+        }
+        for (label, params) in objects {
+            n += 1;
+            if n % nshards != shard {
+                continue;
+            }
+            if !sh.time_left() && !sh.args.thorough() {
+                return;
+            }
+            if t == "shutdown" || t == "pair.revoke" || t == "pair.claim" {
+                continue; // end the endpoint / change the credentials themselves: covered by the role matrix
+            }
+            let case = json!({"extreme": {"type": t, "param": label, "params": if params.to_string().len() < 2000 { params.clone() } else { json!("<long>") }}, "config": {"token": cfg.token, "debug": cfg.debug_on, "pairing": cfg.pairing, "production": cfg.production}});
+            if !sh.begin("extreme", &case) {
+                continue;
+            }
+            if env.is_none() {
+                match catch(|| build_env(cfg, work, false)) {
+                    Ok(Ok(e)) => env = Some(e),
+                    _ => {
+                        sh.inconclusive("X: build_env failed");
+                        sh.end();
+                        return;
+                    }
+                }
+            }
+            let e = env.as_mut().unwrap();
+            let mut req = json!({"id": 9000 + n, "type": t, "params": params});
+            if let Some(a) = &auth {
+                req["auth"] = json!(a);
+            }
+            let mut broken = false;
+            match e.send_raw(req.to_string().as_bytes()) {
+                Ok(reply) => {
+                    if serde_json::from_str::<J>(&reply).is_err() {
+                        sh.violation(format!("X|unparseable-reply|{t}"), format!("param {label}: reply {:?}", &reply[..reply.len().min(200)]), case.clone());
+                    }
+                }
+                Err(err) => {
+                    sh.violation(format!("X|no-reply|{t}|{}", label.split('#').next().unwrap_or("")), format!("param {label}: {err} (a request with an admin credential must be answered, not crash its handler)"), case.clone());
+                    broken = true;
+                }
+            }
+            // the endpoint must keep serving, and keep refusing callers without a credential
+            let mut follow = json!({"id": 9001, "type": "config.get"});
+            if let Some(a) = &auth {
+                follow["auth"] = json!(a);
+            }
+            match e.send_raw(follow.to_string().as_bytes()) {
+                Ok(r) if r.contains("\"ok\":true") => {}
+                other => {
+                    sh.violation(format!("X|endpoint-wedged-after|{t}"), format!("after {t} with param {label} a valid config.get got {other:?}"), case.clone());
+                    broken = true;
+                }
+            }
+            if cfg.token {
+                match e.send_raw(json!({"id": 9002, "type": "status"}).to_string().as_bytes()) {
+                    Ok(r) if r.contains("unauthorized") => sh.count("X_unauthenticated_follow_ups_refused", 1),
+                    other => {
+                        sh.violation(format!("X|unauthenticated-accepted-after|{t}"), format!("after {t} with param {label} a status request WITHOUT credential got {other:?}"), case.clone());
+                        broken = true;
+                    }
+                }
+            }
+            sh.count("X_extreme_requests", 1);
+            sh.nontrivial(&format!("X:{t}:{label}:{}", cfg.token));
+            if broken {
+                if let Some(old) = env.take() {
+                    let _ = std::fs::remove_dir_all(old.sock.parent().unwrap());
+                }
+            } else {
+                // undo what a successful extreme request may have changed
+                e.reset();
+            }
+            sh.end();
+        }
+    }
+    if let Some(old) = env.take() {
+        let _ = std::fs::remove_dir_all(old.sock.parent().unwrap());
+    }
+}
+
 #[derive(Clone, Debug, PartialEq, Eq, Hash, PartialOrd, Ord)]
 pub enum Cred {
     None,
@@ -749,6 +906,12 @@ pub fn run(sh: &mut Shard) {
         }
     }
     sh.count("trials", done);
+    // part X: parameter values at the extremes (separate time box: the matrix above may have used the budget)
+    sh.extend_budget(if thorough { 240.0 } else { 12.0 });
+    let xtypes: Vec<String> = types.iter().cloned().collect();
+    for xc in [Config { token: true, debug_on: true, pairing: true, production: false }, Config { token: false, debug_on: true, pairing: false, production: false }] {
+        extremes(sh, &xc, &work, &xtypes);
+    }
     // malformed input on one connection
     if let Some(env) = envs.values_mut().next() {
         malformed(sh, env);
